@@ -810,4 +810,27 @@ theorem lineTokens_line (n m : Nat) (xs : List (List Char)) :
     · rfl
     · split <;> simp [ih]
 
+/-! ## String literals: the exact condition -/
+
+/-- content without `"` whose last character (or, if empty, the character before it) is not a
+backslash: the literal ends at the first quote, whatever follows -/
+theorem scanStringBody_noesc (prev : Char) (cs rest : List Char) (hq : '"' ∉ cs)
+    (hl : (prev :: cs).getLast? ≠ some '\\') :
+    scanStringBody prev (cs ++ '"' :: rest) = some (cs.length + 1) := by
+  induction cs generalizing prev with
+  | nil =>
+    have : prev ≠ '\\' := by simpa using hl
+    simp [scanStringBody, this]
+  | cons c cs ih =>
+    simp only [List.mem_cons, not_or] at hq
+    rw [List.cons_append, scanStringBody.eq_3 _ _ _ (by intro e; exact hq.1 e.symm)]
+    rw [List.getLast?_cons_cons] at hl
+    simp [ih c hq.2 hl]
+
+theorem getLast?_quote_cons (cs : List Char) (h : cs.getLast? ≠ some '\\') :
+    ('"' :: cs).getLast? ≠ some '\\' := by
+  cases cs with
+  | nil => decide
+  | cons c cs => rw [List.getLast?_cons_cons]; exact h
+
 end Bardolph.Lex
